@@ -2,6 +2,7 @@ CONSTANTS Labels = {1, 2, 3}
   MaxIds = 3
   MaxBuffer = 2
   Sem = "CO"
+  StaleCertificate = FALSE
   ReissueRule = "code"
 SPECIFICATION Spec
 CHECK_DEADLOCK FALSE
